@@ -89,6 +89,10 @@ PLAN = {
             {"monitor": "c05_bg", "variant": "rel", "shards": 16},
             {"monitor": "c05_probe", "variant": "rel", "shards": 16},
             {"monitor": "c05_probe_large", "variant": "rel", "shards": 4},
+            # histories (with gc and audits after every step) on one manager from inside a scope of another
+            # manager: the node store's paths for threads bound to a different store
+            {"monitor": "c14_nested", "variant": "rel", "shards": 8},
+            {"monitor": "c14_nested", "variant": "dbg", "shards": 8},
             {"monitor": "c05_probe", "variant": "dbg", "shards": 8},
             {"monitor": "c05_mtbdd_terminals", "variant": "rel", "shards": 8},
             {"monitor": "c05_mtbdd_terminals", "variant": "dbg", "shards": 4},
@@ -340,6 +344,9 @@ PLAN = {
             {"monitor": "c07_stress", "variant": "pointer", "shards": 8, "parallel": 4, "nondeterministic": True},
             # substitutions created on several threads at once (ids are apply-cache keys)
             {"monitor": "c06_subst_ids", "variant": "rel", "shards": 2, "nondeterministic": True},
+            # calling thread bound to another manager while it and the workers allocate / collect (shared free lists)
+            {"monitor": "c14_nested", "variant": "rel", "shards": 8},
+            {"monitor": "c14_nested", "variant": "dbg", "shards": 8},
             {"monitor": "c07_stress", "variant": "tsan", "shards": 8, "parallel": 4, "nondeterministic": True},
             {"monitor": "c07_stress", "variant": "asan", "shards": 8, "parallel": 4, "nondeterministic": True, "tiers": ("thorough",)},
             {"monitor": "c07_tiny", "variant": "tsan", "shards": 16, "nondeterministic": True},
